@@ -23,14 +23,19 @@ def interpret_gate(ctx, fn, file, cls, facts, catalog):
     """Run the gate function (sa/interp.py, fail closed) on abstract facts: get_query_info answers `facts`, the catalog is `catalog`, the rewrite and add_step are
     recorded.  -> dict(result=value, effects=[(callee, args)], query=the analysed query stand-in)"""
     effects = []
-    query = Obj('Select', _analysed=True)
+    query = Obj('Select', _analysed=True, from_table=Obj('Join', left=Obj('Identifier', parts=['int1', 'a']), right=Obj('Identifier', parts=['int1', 'b'])),
+                targets=[Obj('Star')], where=Obj('BinaryOperation', op='in', args=[]), cte=None)
 
     def add_step(step):
         effects.append(('add_step', [step]))
         return Obj('AddedStep', step=step)
+
+    def info(q):
+        effects.append(('get_query_info', [q]))
+        return {k: (set(v) if isinstance(v, set) else list(v)) for k, v in facts.items()}
     # the stand-ins of what the gate consults are attributes of the planner stand-in itself, so it does not matter under which name the code reaches them
     planner = Obj('QueryPlanner', integrations=catalog, plan=Obj('QueryPlan', add_step=add_step), query=Obj('Select', _own=True), default_namespace='mindsdb',
-                  get_query_info=lambda q: {k: (set(v) if isinstance(v, set) else list(v)) for k, v in facts.items()},
+                  get_query_info=info,
                   prepare_integration_select=lambda *a: effects.append(('prepare_integration_select', list(a))))
     stubs = {'FetchDataframeStep': lambda it, *a, **k: Obj('FetchDataframeStep', _pos=a, **k)}
     it = Interp.for_file(ctx.src, file, {}, stubs, also=(PJ, QP))
@@ -41,6 +46,30 @@ def interpret_gate(ctx, fn, file, cls, facts, catalog):
         effects.append(('raise', [r.exc_name]))
         res = f'<{r.exc_name}>'
     return dict(result=res, effects=effects, query=query)
+
+
+def gate_rows(ctx):
+    """the decision table of both single-integration gates (which cases are accepted, which integration is returned, that the whole query is classified)
+    -> [(construct, ok, message, file, line)] - also used by C10 (a query sent as a whole must not mention a table that belongs elsewhere)"""
+    tq = ctx.src.tree(QP)
+    tj = ctx.src.tree(PJ)
+    qp = class_named(tq, 'QueryPlanner')
+    pj = class_named(tj, 'PlanJoin')
+    out = []
+    for name, fn, file in (('QueryPlanner.check_single_integration', function_named(qp, 'check_single_integration') if qp else None, QP),
+                           ('PlanJoin.check_single_integration', function_named(pj, 'check_single_integration') if pj else None, PJ)):
+        ctx.need(fn is not None, f'{name} not found')
+        for facts, catalog, want, label in fact_space():
+            r = interpret_gate(ctx, fn, file, name.split('.')[0], facts, catalog)
+            accepted = bool(r['result']) and not (isinstance(r['result'], str) and r['result'].startswith('<'))
+            out.append((f'{name}:{label}', accepted == want,
+                        f'{name} {"accepts" if accepted else "refuses"} the case [{label}] but the whole-query pushdown is defined for exactly: no MindsDB entities, one '
+                        f'integration that is not files/views, no user-defined functions, not an api-type integration', file, fn.lineno))
+            asked = [e[1][0] for e in r['effects'] if e[0] == 'get_query_info']
+            out.append((f'{name}:classifies-whole-query', len(asked) >= 1 and all(a is r['query'] for a in asked),
+                        f'{name} classifies {[repr(a)[:40] for a in asked] or "nothing"} instead of the query it decides about: a table of another integration (or a model) '
+                        f'in a part that is not looked at is sent along inside the single query', file, fn.lineno))
+    return out
 
 
 def _class_method_names(cls):
@@ -98,6 +127,12 @@ def run(ctx):
                    f'{name} {"accepts" if accepted else "refuses"} the case [{label}] but the whole-query pushdown is defined for exactly: no '
                    f'MindsDB entities, one integration that is not files/views, no user-defined functions, not an api-type integration',
                    file=file, line=fn.lineno)
+            # the facts the gate decides on are those of the WHOLE query (tables in WHERE / targets sub-selects included), not of a part of it
+            asked = [e[1][0] for e in r['effects'] if e[0] == 'get_query_info']
+            ctx.ob('C11.gate', f'{name}:classifies-whole-query', len(asked) >= 1 and all(a is r['query'] for a in asked),
+                   f'{name} classifies {[repr(a)[:40] for a in asked] or "nothing"} instead of the query it decides about: a table of another integration (or a model) in a '
+                   f'part that is not looked at is sent along inside the single query', file=file, line=fn.lineno,
+                   witness='select * from int1.a join int1.b on a.id = b.id where a.x in (select y from int2.c)')
             effs = [e for e in r['effects'] if e[0] in ('add_step', 'prepare_integration_select')]
             if name.startswith('QueryPlanner'):
                 if not accepted:
